@@ -7,7 +7,8 @@
    emitted .go text is tied to the model by T1 (tools/t1_go.py) on every run.  Go itself is
    never executed. *)
 From Coq Require Import ZArith List Bool.
-From BP Require Import Bits Schema Spec PyRt Eqb PyEncTop GoRt GoEqb GoHelpers GoTables GoEncProofs GoDecLeaf.
+From BP Require Import Bits Schema Spec PyRt Eqb PyEncTop PyDecProofs GoRt GoEqb GoHelpers GoTables GoEncProofs GoDecLeaf
+                       GoDecProofs.
 From BPGen Require GenPy GenGo.
 Import ListNotations.
 Open Scope Z_scope.
@@ -164,6 +165,41 @@ Theorem C19_go_chunk_eq_py : forall w b l,
 Proof. exact go_chunk_eq_py. Qed.
 Print Assumptions C19_go_chunk_eq_py.
 
+(* ---- semantics, decode half: the Go decoder model (translated helpers, typed accessors as
+   emitted, sign extension by <<= d; >>= d, bool via Byte2bool), run on the specified wire of v
+   into a zero-valued Go struct, leaves exactly the canonical storage of v:
+   [canon (norm t) v] = fields in field-number order, every bool a Go bool, every integer leaf the
+   value itself (signed ones sign-extended into their intN), arrays element by element.
+   Go's zero value of an enum is 0, so no condition on the first enum member is needed
+   (Python's decoder needs dec_guard, finding enum-default). ---- *)
+Theorem C19_go_accessors_spec_decode : forall t v,
+  is_msg t = true -> wf (norm t) = true -> shape_ok (norm t) = true -> has_ty (norm t) v = true ->
+  go_decode t (wire t v) = Ok (canon (norm t) v).
+Proof. exact go_decode_wire. Qed.
+Print Assumptions C19_go_accessors_spec_decode.
+
+(* at any nested position (inside arrays, aliases, sub-messages) the decoder writes exactly
+   canon t v at the addressed place, touches nothing else and advances the cursor by nbits t *)
+Theorem C19_go_decode_at_position : forall t g vs fn stk a v s i0,
+  wf t = true -> shape_ok t = true -> has_ty t v = true ->
+  gdreach t g fn (length stk) -> 1 <= fn ->
+  lookup fn vs = Some a -> PyRt.index_val a stk = Ok (go_default t) ->
+  bytes_ok s -> 0 <= i0 -> i0 + nbits t <= 8 * Z.of_nat (length s) -> Z.of_nat (length s) < 2 ^ 36 ->
+  PyDecStep.slice s i0 (nbits t) = Z_of_bits (enc_bits t v) ->
+  go_dec (go_proc_of t) g (VM vs) (Some fn) stk {| cs := s; ci := i0 |} =
+  Ok (VM (set_field fn (PyDecStep.set_idx a stk (canon t v)) vs), {| cs := s; ci := i0 + nbits t |}).
+Proof. exact go_dec_ok_all. Qed.
+Print Assumptions C19_go_decode_at_position.
+
+(* Decode(Encode(v)) equals v field by field, and re-encoding the decoded struct gives the bytes *)
+Theorem C19_go_roundtrip : forall t v,
+  is_msg t = true -> wf (norm t) = true -> shape_ok (norm t) = true -> has_ty (norm t) v = true ->
+  exists b v',
+    go_encode t v = Ok b /\ go_decode t b = Ok v' /\
+    val_sim (norm t) v' v = true /\ go_encode t v' = Ok b /\ b = wire t v /\ v' = canon (norm t) v.
+Proof. exact go_roundtrip. Qed.
+Print Assumptions C19_go_roundtrip.
+
 (* non-vacuity: a permuted, extensible, nested example meets every hypothesis *)
 Definition ex_t : ty :=
   TMsg true [ (3, TAlias (TArr true 3 (TUint 3)));
@@ -182,6 +218,7 @@ Example C19_nonvacuous :
   has_ty (norm ex_t) ex_v = true /\
   go_encode ex_t ex_v = Ok (wire ex_t ex_v) /\
   res_val_sim ex_t (go_decode ex_t (wire ex_t ex_v)) (Ok ex_v) = true /\
+  go_decode ex_t (wire ex_t ex_v) = Ok (canon (norm ex_t) ex_v) /\
   gproc_diff (go_proc_of (norm ex_t)) (go_proc_of (norm ex_t)) = 0 /\
   lookup 7 (gc_set (go_cls_of true (match norm ex_t with TMsg _ fs => fs | _ => [] end))) =
     Some {| gs_depth := 2; gs_conv := GByte; gs_kind := GSOr |} /\
